@@ -31,7 +31,9 @@ def model (args : List String) : Option String :=
     -- (io.ErrUnexpectedEOF) and stores what it got: same file-system behaviour as `upload`, but a
     -- read fault changes what mime/multipart sees, which is outside the model
     if kind0 == "trunc" && (sc == "pread64") then none else
-    let kind := if kind0 == "trunc" then "upload" else kind0
+    -- `uploadoff`: the last rule of the body phase switches the engine off; the file-system behaviour (Close removes
+    -- what was stored) must be that of `upload`
+    let kind := if kind0 == "trunc" || kind0 == "uploadoff" then "upload" else kind0
     let uploads ← up.toNat?
     let stopN ← stop.toNat?
     let i ← idx.toNat?
